@@ -3,6 +3,7 @@ import Fabio.Driver.RouteJson
 import Fabio.Model.Route
 import Fabio.Model.C04
 import Fabio.Model.C04Spec
+import Fabio.Model.C04F64
 /-!
 Driver handlers for C04. For every stream: `agree` compares the Go observation with the model
 (`Model.Route.newTable` for the weights — tolerance 2⁻⁴⁰ per weight —, `Model.C04.fillRing` for the ring,
@@ -44,6 +45,40 @@ partial def closeJsonRel (model impl : Json) : Bool :=
       | .error _ => false)
   | .arr a, .arr b => a.size == b.size && (a.toList.zip b.toList).all (fun (x, y) => closeJsonRel x y)
   | a, b => a == b
+
+/-- exact comparison: "fixed"/"weight" strings are compared as rationals, no tolerance -/
+partial def eqJsonRat (model impl : Json) : Bool :=
+  match model, impl with
+  | .obj m, .obj _ =>
+    m.toList.all (fun (k, v) =>
+      match impl.getObjVal? k with
+      | .ok w =>
+        if k == "fixed" || k == "weight" then
+          match v, w with
+          | .str a, .str b => (match parseRat a, parseRat b with
+              | some x, some y => x == y
+              | _, _ => a == b)
+          | _, _ => false
+        else eqJsonRat v w
+      | .error _ => false)
+  | .arr a, .arr b => a.size == b.size && (a.toList.zip b.toList).all (fun (x, y) => eqJsonRat x y)
+  | a, b => a == b
+
+def routesOf (t : Table) : List Route := (sortHosts t).foldr (fun kv acc => kv.2 ++ acc) []
+
+def sameShapeR (x y : Route) : Bool :=
+  x.targets.length == y.targets.length &&
+    (x.targets.zip y.targets).all (fun (s, t) => decide (0 < s.fixedWeight) == decide (0 < t.fixedWeight))
+
+/-- The ℚ table and the float64 table of the same script have the same shape: same routes, same number of
+targets, the same targets fixed/dynamic. They differ where float64 identity decides the control flow: a
+re-announced target whose weight equals the stored one only after rounding (`0.0001 / 10 == 0.00001`) is
+de-duplicated in float64 and a second entry in ℚ; a share that underflows to 0 makes the target dynamic.
+On such a script only the float64 model is compared with the code (exactly); the ℚ model is not. -/
+def sameShape (a b : Table) : Bool :=
+  let ra := routesOf a
+  let rb := routesOf b
+  ra.length == rb.length && (ra.zip rb).all (fun (x, y) => sameShapeR x y)
 
 /-! ### decoding -/
 
@@ -160,7 +195,7 @@ def trailingWeightCmds (ds : List Json) : List (Str × WCmd) :=
       let tags := (strList ((d.getObjVal? "tags").toOption.getD .null)).toOption.getD []
       some (getStrD d "src", { service := getStrD d "service", tags, w }))
 
-def spreadOk (impl : Json) (ds : List Json) : Bool :=
+def spreadCheck (chk : List (Str × List Str × Rat) → List WCmd → Bool) (impl : Json) (ds : List Json) : Bool :=
   let cmds := trailingWeightCmds ds
   if cmds.isEmpty then true else
   match (impl.getObjVal? "table").toOption.bind (fun t => t.getArr?.toOption) with
@@ -177,54 +212,82 @@ def spreadOk (impl : Json) (ds : List Json) : Bool :=
           let tg := ts.toList.map (fun t =>
             (getStrD t "service", (strList ((t.getObjVal? "tags").toOption.getD .null)).toOption.getD [],
              ((t.getObjValAs? String "fixed").toOption.bind parseRat).getD 0))
-          spreadHonoured tg mine))
+          chk tg mine))
+
+def spreadOk := spreadCheck spreadHonoured
+/-- the same without tolerance: `FixedWeight = float64(w) / float64(k)` exactly -/
+def spreadExact := spreadCheck spreadExactF64
 
 /-! ### c04.weights -/
 
 def weightsH : Handler := fun inp impl => do
   let defs ← defsOf inp impl
   let env := envOf ((impl.getObjVal? "oracle").toOption.getD (Json.mkObj []))
-  match newTable env defs with
-  | .error e =>
+  match newTableA Arith.f64 env defs, newTable env defs with
+  | .error e, _ =>
     let m := Json.mkObj [("error", errName e)]
     return ({ model := m, agree := closeJsonRel m impl, spec := true, nontrivial := false, tag := "err-" ++ errName e } : Verdict).toJson
-  | .ok t =>
+  | .ok t, tq =>
     let m := Json.mkObj [("table", tableJson t)]
     if (impl.getObjVal? "table").toOption.isNone then
       return ({ model := m, agree := false, spec := true, nontrivial := false, tag := "impl-error" } : Verdict).toJson
     let os ← obsOfTable impl
-    let tableOk := closeJsonRel m impl
+    -- the float64 instance of the as-coded model: exact, no tolerance
+    let tableOk := eqJsonRat m impl
+    -- the ℚ model (the one the theorems are about): within 2⁻⁴⁰, where the two models have the same shape
+    let (gap, qOk, slotsOk) := match tq with
+      | .error _ => (false, false, true)
+      | .ok q =>
+        if sameShape q t then
+          let mw := modelWeights q
+          (false, closeJsonRel (Json.mkObj [("table", tableJson q)]) impl,
+           mw.length == os.length && (mw.zip os).all (fun (w, o) => slotsNear w o))
+        else (true, true, true)
     let ringRes := os.map ringAgrees
     let ringsOk := ringRes.all (·.1)
-    let mw := modelWeights t
-    let slotsOk := mw.length == os.length && (mw.zip os).all (fun (w, o) => slotsNear w o)
+    let f64Ok := os.all weightsAgreeF64
     let raw ← rawDefs inp impl
+    let spreadX := spreadExact impl raw.toList
     let fails := os.foldr (fun o acc => specFailures o ++ acc) [] ++
       (if spreadOk impl raw.toList then [] else ["route-weight-not-spread"])
     let cls := match biggest os with
       | some o => weightClass o
       | none => "empty"
     let (spec, tag) := verdictOfSpec fails cls
-    let tag := if spec && !tableOk then "weights-differ"
+    let tag := if spec && !tableOk then "f64-table-differs"
+      else if spec && !qOk then "weights-differ"
+      else if spec && !f64Ok then "f64-weights-differ"
+      else if spec && !spreadX then "f64-spread-differs"
       else if spec && !ringsOk then "ring-differs-" ++ ((ringRes.find? (fun r => !r.1)).map (·.2)).getD ""
       else if spec && !slotsOk then "slots-differ"
+      else if spec && gap then "f64-q-gap/" ++ tag
       else tag
     let nt := os.any (fun o => decide (o.weight.length ≥ 2) && hasFixed o)
-    return ({ model := m, agree := tableOk && ringsOk && slotsOk, spec, nontrivial := nt, tag } : Verdict).toJson
+    return ({ model := m, agree := tableOk && qOk && f64Ok && spreadX && ringsOk && slotsOk, spec, nontrivial := nt, tag } : Verdict).toJson
 
 /-! ### shared by rr / rnd: the model's view of the route that is looked up -/
 
 /-- model weights of the route named by `src` (none: no such route) -/
-def modelRoute (env : Env) (defs : List RouteDef) (src : Str) : Except Err (Option Route) :=
-  match newTable env defs with
+def modelRoute (env : Env) (defs : List RouteDef) (src : Str) : Except Err (Option (Route × Option Route)) :=
+  match newTableA Arith.f64 env defs with
   | .error e => .error e
   | .ok t =>
     let (h, p) := lowerHostPath src
-    .ok (t.route h p)
+    let q := match newTable env defs with
+      | .ok tq => tq.route h p
+      | .error _ => none
+    .ok ((t.route h p).map (fun r => (r, q)))
 
-def weightsClose (r : Route) (o : RouteObs) : Bool :=
-  r.targets.length == o.weight.length &&
-  (r.targets.zip (o.weight.zip o.fixed)).all (fun (t, w, f) => ratClose t.weight w && relClose t.fixedWeight f)
+/-- the float64 model's route exactly; the ℚ model's route within tolerance where it has the same shape -/
+def weightsClose (rq : Route × Option Route) (o : RouteObs) : Bool :=
+  let r := rq.1
+  r.targets.map (·.weight) == o.weight && r.targets.map (·.fixedWeight) == o.fixed && weightsAgreeF64 o &&
+  (match rq.2 with
+   | none => false
+   | some q =>
+     !sameShapeR q r ||
+     (q.targets.length == o.weight.length &&
+      (q.targets.zip (o.weight.zip o.fixed)).all (fun (t, w, f) => ratClose t.weight w && relClose t.fixedWeight f)))
 
 def uint64Max : Nat := 2^64
 
@@ -294,7 +357,8 @@ def rndH : Handler := fun inp impl => do
   let defs ← defsOf inp impl
   let env := envOf ((impl.getObjVal? "oracle").toOption.getD (Json.mkObj []))
   let src ← getStr inp "src"
-  let rands ← natArr ((inp.getObjVal? "rands").toOption.getD (Json.arr #[]))
+  let rands0 ← natArr ((inp.getObjVal? "rands").toOption.getD (Json.arr #[]))
+  let sweep := (inp.getObjValAs? Bool "sweep").toOption.getD false
   match modelRoute env defs src with
   | .error e =>
     let m := Json.mkObj [("error", errName e)]
@@ -311,18 +375,22 @@ def rndH : Handler := fun inp impl => do
     let n := o.weight.length
     let wOk := weightsClose r o
     let (ringOk, _) := ringAgrees o
-    let ringL := o.ring.toList
+    -- a sweep enumerates the range once: as many draws as the ring has slots, the j-th is j (one lookup
+    -- through the shortcut for a single target)
+    let rands := if sweep then (if n ≤ 1 then #[0] else Array.range o.ring.size) else rands0
     -- model: lookupPick + rndPick with randIntn n = rands[j] % n
     let mpicks : Array Nat := (Array.range rands.size).map (fun j =>
-      match lookupPick n (rndPick ringL (fun m => if m = 0 then 0 else ((rands.getD j 0 % m : Nat) : Int))) with
+      match lookupPick n (rndPickA o.ring (fun m => if m = 0 then 0 else ((rands.getD j 0 % m : Nat) : Int))) with
       | .ok (some i) => i
       | _ => 1000000000)
     let masked : Array Nat := if n ≤ 1 then #[] else Array.replicate rands.size o.ring.size
     let picksOk := mpicks == picks && masked == asked
-    let m := Json.mkObj [("picks", picksJson mpicks), ("asked", picksJson masked)]
+    let m := Json.mkObj [("picks", picksJson (mpicks.extract 0 40)), ("asked", picksJson (masked.extract 0 40))]
     let zeroPicked := picks.any (fun i => decide (i ≥ n) || decide (o.weight.getD i 0 ≤ 0))
+    let shareOk := !sweep || n ≤ 1 || sweepShareOk n o.ring picks asked
     let fails := specFailures o ++ (if zeroPicked then ["zero-weight-picked"] else [])
-    let cls := if n = 1 then "single" else if !hasFixed o then "bypass" else "ring"
+      ++ (if shareOk then [] else ["rnd-share-not-ring-share"])
+    let cls := (if n = 1 then "single" else if !hasFixed o then "bypass" else "ring") ++ (if sweep then "/sweep" else "")
     let (spec, tag) := verdictOfSpec fails cls
     let tag := if spec && !wOk then "weights-differ" else if spec && !ringOk then "ring-differs" else if spec && !picksOk then "picks-differ" else tag
     return ({ model := m, agree := wOk && ringOk && picksOk, spec, nontrivial := decide (n ≥ 2), tag } : Verdict).toJson
@@ -340,7 +408,7 @@ def isNonFinite (d : Json) : Bool :=
   | .error _ => false
 
 /-- decode the definitions with their finiteness flag and run `newTableW` -/
-def hostileBuild (env : Env) (ds : List Json) : Except String (Except String Table) := do
+def hostileBuild (env : Env) (ds : List Json) : Except String (Except String (Table × Option Table)) := do
   let defs ← ds.mapM (fun d => do
     if isNonFinite d then
       let rd ← routeDef (d.setObjVal! "weight" (Json.str "0/1"))
@@ -348,8 +416,11 @@ def hostileBuild (env : Env) (ds : List Json) : Except String (Except String Tab
     else
       let rd ← routeDef d
       pure (rd, true))
-  match newTableW env defs with
-  | .ok t => return (.ok t)
+  let tq := match newTableW env defs with
+    | .ok t => some t
+    | .error _ => none
+  match newTableWA Arith.f64 env defs with
+  | .ok t => return (.ok (t, tq))
   | .error none => return (.error "invalidWeight")
   | .error (some e) => return (.error (errName e))
 
@@ -370,9 +441,9 @@ def hostileH : Handler := fun inp impl => do
                else if (s.splitOn "nil pointer").length > 1 then "panic-nil"
                else "panic-other"
     | .error _ => ""
-  -- `route weight` with a share so small that share/n underflows to 0 (or loses all precision) in float64:
-  -- the ℚ model keeps a positive fixed weight where Go gets 0 = "dynamic". Outside the model (assumption
-  -- "float64 vs ℚ"); only the specification is evaluated on such a case.
+  -- `route weight` with a share so small that share/n is a denormal (loses precision) in float64: the
+  -- relative error of the requested weights is then far above 2⁻⁴⁰ and survives the normalisation. Such a
+  -- case is compared with the float64 model only (exactly), not with the ℚ model.
   let underflow := ds.toList.any (fun d =>
     (d.getObjValAs? String "cmd").toOption == some "weight" &&
     (match (d.getObjValAs? String "weight").toOption.bind parseRat with
@@ -384,15 +455,24 @@ def hostileH : Handler := fun inp impl => do
     let m := Json.mkObj [("error", e)]
     let tag := if implPanic then "spec-" ++ panicTag else "err-" ++ e
     return ({ model := m, agree := closeJsonRel m impl, spec := !implPanic, nontrivial := hostileTok, tag } : Verdict).toJson
-  | .ok t =>
+  | .ok (t, tq) =>
     let m := Json.mkObj [("table", tableJson t)]
     if implPanic then
       return ({ model := m, agree := false, spec := false, nontrivial := hostileTok, tag := "spec-" ++ panicTag } : Verdict).toJson
     if (impl.getObjVal? "table").toOption.isNone then
       return ({ model := m, agree := false, spec := true, nontrivial := hostileTok, tag := "impl-error" } : Verdict).toJson
     let os ← obsOfTable impl
-    let tableOk := underflow || closeJsonRel m impl
+    -- float64 model: exact, every case (also where a share underflows); ℚ model: within tolerance where
+    -- the shapes coincide
+    let gap := match tq with
+      | some q => !sameShape q t
+      | none => false
+    let qOk := match tq with
+      | some q => gap || underflow || closeJsonRel (Json.mkObj [("table", tableJson q)]) impl
+      | none => false
+    let tableOk := eqJsonRat m impl && qOk
     let ringsOk := os.all (fun o => (ringAgrees o).1)
+    let f64Ok := os.all weightsAgreeF64
     -- picks: per route rr ×3 from cursor 0, then one rnd draw with randIntn n = (j*7919) % n, j counting draws
     let picksJ ← (← impl.getObjVal? "picks").getArr?
     let mut j := 0
@@ -413,9 +493,10 @@ def hostileH : Handler := fun inp impl => do
       | some o => "table/" ++ weightClass o
       | none => "table/empty"
     let (spec, tag) := verdictOfSpec fails cls
-    let tag := if spec && !tableOk then "weights-differ" else if spec && !ringsOk then "ring-differs" else if spec && !picksOk then "picks-differ"
-      else if spec && underflow then "float-underflow-share" else tag
-    return ({ model := m, agree := tableOk && ringsOk && picksOk, spec, nontrivial := hostileTok && !underflow, tag } : Verdict).toJson
+    let tag := if spec && !tableOk then "weights-differ" else if spec && !f64Ok then "f64-weights-differ"
+      else if spec && !ringsOk then "ring-differs" else if spec && !picksOk then "picks-differ"
+      else if spec && gap then "f64-q-gap" else tag
+    return ({ model := m, agree := tableOk && f64Ok && ringsOk && picksOk, spec, nontrivial := hostileTok, tag } : Verdict).toJson
 
 def streams : List (String × Handler) :=
   [("c04.weights", weightsH), ("c04.rr", rrH), ("c04.rnd", rndH), ("c04.hostile", hostileH)]
